@@ -32,7 +32,7 @@ SPEC = {
     "harness": "c15",
     "race": True,
     "theorems": [
-        "C15_trigger_exactly_once", "C15_weak_iteration", "C15_max_trigger_count", "C15_max_trigger_count_never_more",
+        "C15_trigger_exactly_once", "C15_pre_trigger", "C15_weak_iteration", "C15_max_trigger_count", "C15_max_trigger_count_never_more",
         "C15_max_trigger_count_seq", "C15_max_trigger_count_hooks",
         "C15_link", "C15_link_concurrent", "C15_promise_once", "C15_notifier", "C15_notifier_wait_race",
         "C15_notifier_old_witness", "C15_notifier_wait_race_old_witness",
@@ -50,7 +50,8 @@ SPEC = {
         "Go toolchain and runtime (sync, sync/atomic, select, context, channels), compiled Lean driver",
         "verif hook valuenotifier.VerifBeforeSelect (build tag verif) used to park a waiter before its select"],
     "modelled": [
-        "event.Event1 Hook/Unhook/Trigger/LinkTo/WithMaxTriggerCount/WithWorkerPool (hook level) as a sequential machine over hook records",
+        "event.Event1 Hook/Unhook/Trigger/LinkTo/WithMaxTriggerCount/WithWorkerPool (hook level)/WithPreTriggerFunc (event and hook level) "
+        "as a sequential machine over hook records",
         "orderedmap.ForEach as used by Trigger: linked list with frozen next pointers of removed elements (weak iteration), any interleaving",
         "trigger counters: one atomic Add per Trigger and per visited hook, any number of concurrent Trigger callers; one hook "
         "(EventsMax) and any number of hooks with own limits (EventsMaxN)",
@@ -58,7 +59,7 @@ SPEC = {
         "target and user Hook/Unhook callers, registry with frozen next pointers (Hive/Model/EventsRelink.lean)",
         "promise.Event1 Trigger/OnTrigger/unsubscribe with every critical section and every callback invocation as one step",
         "valuenotifier Notifier/Listener: sequential histories with repeated values; Wait's flag check, select and re-check as separate steps",
-        "NOT modelled: WithPreTriggerFunc, event-level worker pools, the generic arities other than Event1 (generated from one template), "
+        "NOT modelled: event-level worker pools, the generic arities other than Event1 (generated from one template), "
         "link cycles (the generator keeps links acyclic, a cycle recurses forever in the code), uint64 wrap-around of the counters, "
         "shrinkingmap internals, the worker pool itself (C16) — pooled hooks are observed after the pool drained"],
     "manifest": {
